@@ -10,6 +10,7 @@ import M3d.Lemmas.C17BiCG
 import M3d.Lemmas.C17Lsq
 import Mathlib.Algebra.Order.Ring.Basic
 import M3d.Gen.Binomial
+import M3d.Model.C17Memo
 /-!
 # C17 — numerical and curve kernels satisfy their defining equations
 
@@ -1551,5 +1552,70 @@ example : Poly.eval [(-8 : ℚ), 0, 0, 1] 2 = 0 ∧ Poly.eval [(-8 : ℚ), 0, 0,
     ((-3 : ℚ) * (-3) - 3 * 1 * 3 = 0) := by decide +kernel
 
 end Cubic
+
+/-! ## `CacheScalarFunc` / `BezierCurve.CachedEvalX` (`model2d/curves.go`): the memo table refines the function -/
+
+section Memo
+open M3d.Memo
+
+variable {A B : Type} [BEq A] [LawfulBEq A]
+
+/-- `cache.Load(x)` on a table all of whose entries `(k, v)` satisfy `v = f k` can only return `f x`
+(the key comparison is equality of the arguments themselves — this is what a coarser key, e.g. `float32(x)`, breaks). -/
+theorem memo_lookup_sound (f : A → B) (c : List (A × B)) (h : ∀ p ∈ c, p.2 = f p.1) (x : A) (v : B)
+    (e : lookup c x = some v) : v = f x := by
+  induction c with
+  | nil => simp [lookup] at e
+  | cons p r ih =>
+    obtain ⟨k, w⟩ := p
+    simp only [lookup] at e
+    split at e
+    · rename_i hk
+      have hkx : k = x := eq_of_beq hk
+      have hw : w = f k := h (k, w) (by simp)
+      have e' : w = v := by simpa using e
+      rw [← e', hw, hkx]
+    · exact ih (fun p hp => h p (List.mem_cons_of_mem _ hp)) e
+
+/-- One call of the closure returned by **`CacheScalarFunc(f)`** returns `f x` and keeps every entry of the table
+equal to `f` of its key. -/
+theorem memo_call_refines (f : A → B) (c : List (A × B)) (h : ∀ p ∈ c, p.2 = f p.1) (x : A) :
+    (call f c x).1 = f x ∧ ∀ p ∈ (call f c x).2, p.2 = f p.1 := by
+  cases e : lookup c x with
+  | some v =>
+    simp only [call, e]
+    exact ⟨memo_lookup_sound f c h x v e, h⟩
+  | none =>
+    simp only [call, e]
+    refine ⟨trivial, ?_⟩
+    intro p hp
+    rcases List.mem_cons.mp hp with rfl | hp
+    · rfl
+    · exact h p hp
+
+/-- Every history of calls on one cached function, from any table that is consistent with `f`, returns `f` of
+each argument. -/
+theorem memo_run_eq_map (f : A → B) (xs : List A) :
+    ∀ c : List (A × B), (∀ p ∈ c, p.2 = f p.1) → run f c xs = xs.map f := by
+  induction xs with
+  | nil => intro c _; rfl
+  | cons x xs ih =>
+    intro c h
+    obtain ⟨h1, h2⟩ := memo_call_refines f c h x
+    simp only [run, List.map_cons]
+    rw [h1, ih _ h2]
+
+/-- **`CacheScalarFunc(f)` / `BezierCurve.CachedEvalX`**: for EVERY history of queries `xs` on one freshly created
+cached function (repeated arguments, arguments arbitrarily close to earlier ones, any order), the i-th answer is
+`f xs[i]` — the cached function is observationally the uncached one (`EvalX`, whose contract is
+`curve_evalx_bracket`).  This is the expected answer of the correspondence kind `cachedevalx`. -/
+theorem cache_scalar_func_history (f : A → B) (xs : List A) : run f [] xs = xs.map f :=
+  memo_run_eq_map f xs [] (by simp)
+
+/-- Non-vacuity: a history with a repeated argument (cache hit) and a neighbouring one (miss). -/
+example : run (fun n : Nat => n * n) [] [3, 4, 3, 5, 4] = [9, 16, 9, 25, 16] ∧
+    (call (fun n : Nat => n * n) [(3, 9)] 3).2 = [(3, 9)] := by decide
+
+end Memo
 
 end M3d.C17
